@@ -36,15 +36,8 @@ STANDARD_PREAMBLE_LEN = STANDARD_PREAMBLE.count('__future__')
 _LEADING_WHITESPACE = re.compile(r'\s*')
 
 
-def _unfold_continuations(code_string):
-  """Removes any backslash line continuations from the code."""
-  return code_string.replace('\\\n', '')
-
-
 def dedent_block(code_string):
   """Dedents a code so that its first line starts at row zero."""
-
-  code_string = _unfold_continuations(code_string)
 
   token_gen = tokenize.generate_tokens(io.StringIO(code_string).readline)
 
@@ -63,7 +56,6 @@ def dedent_block(code_string):
     tok_type, tok_string, _, _, _ = tok
     if tok_type == tokenize.INDENT:
       block_indentation = tok_string
-      block_level = len(block_indentation)
       break
     elif tok_type not in (
         tokenize.NL, tokenize.NEWLINE, tokenize.STRING, tokenize.COMMENT):
@@ -73,40 +65,33 @@ def dedent_block(code_string):
   if not block_indentation:
     return code_string
 
-  block_level = len(block_indentation)
   first_indent_uses_tabs = '\t' in block_indentation
-  for i, tok in enumerate(tokens):
-    tok_type, tok_string, _, _, _ = tok
-    if tok_type == tokenize.INDENT:
-      if ((' ' in tok_string and first_indent_uses_tabs)
-          or ('\t' in tok_string and not first_indent_uses_tabs)):
+  # Physical lines that begin inside a multi-line string literal belong to the
+  # literal's value and must be left alone.
+  string_token_types = (tokenize.STRING, getattr(tokenize, 'FSTRING_MIDDLE', -1))
+  lines_inside_strings = set()
+  for tok in tokens:
+    if tok.type == tokenize.INDENT:
+      if ((' ' in tok.string and first_indent_uses_tabs)
+          or ('\t' in tok.string and not first_indent_uses_tabs)):
         # TODO(mdan): We could attempt to convert tabs to spaces by unix rule.
         # See:
         # https://docs.python.org/3/reference/lexical_analysis.html#indentation
         raise errors.UnsupportedLanguageElementError(
             'code mixing tabs and spaces for indentation is not allowed')
-      if len(tok_string) >= block_level:
-        tok_string = tok_string[block_level:]
-      tokens[i] = (tok_type, tok_string)
+    elif tok.type in string_token_types and tok.start[0] < tok.end[0]:
+      lines_inside_strings.update(range(tok.start[0] + 1, tok.end[0] + 1))
 
-  new_code = tokenize.untokenize(tokens)
-
-  # Note: untokenize respects the line structure, but not the whitespace within
-  # lines. For example, `def foo()` may be untokenized as `def foo ()`
-  # So instead of using the output of dedent, we match the leading whitespace
-  # on each line.
+  # Only the block indentation is removed, line by line. Lines that are
+  # indented less (continuation lines, comments) keep their text: their
+  # indentation is not significant. Line continuations are left in place.
   dedented_code = []
-  for line, new_line in zip(code_string.split('\n'), new_code.split('\n')):
-    original_indent = re.match(_LEADING_WHITESPACE, line).group()
-    new_indent = re.match(_LEADING_WHITESPACE, new_line).group()
-    if len(original_indent) > len(new_indent):
-      dedented_line = line[len(original_indent) - len(new_indent):]
-    else:
-      dedented_line = line
-    dedented_code.append(dedented_line)
-  new_code = '\n'.join(dedented_code)
-
-  return new_code
+  for lineno, line in enumerate(code_string.split('\n'), 1):
+    if (lineno not in lines_inside_strings and
+        line.startswith(block_indentation)):
+      line = line[len(block_indentation):]
+    dedented_code.append(line)
+  return '\n'.join(dedented_code)
 
 
 def parse_entity(entity, future_features):
